@@ -57,7 +57,27 @@ pub fn draw_knobs(rng: &mut Rng) -> Knobs {
 pub fn search_run(prop: Prop, base: u64, i: u64, fault_free_only: bool, stats: &mut Stats) -> Outcome {
     let mut rng = Rng::new(run_seed(base, i));
     let mut vr = rng.fork(0);
-    let value = gen::gen_value_spec(&mut vr, prop);
+    let mut value = gen::gen_value_spec(&mut vr, prop);
+    // one run in eight works on a sibling of the previous run's value (same version with other
+    // build metadata or spelling, or the same text again): state that the code under test may
+    // carry from call to call under a too-coarse key only shows on such neighbours.  Still a pure
+    // function of (base, i): the previous run's value is re-derived from its seed.
+    if i % CHUNK != 0 && rng.below(8) == 0 {
+        let mut prev = Rng::new(run_seed(base, i - 1)).fork(0);
+        let pv = gen::gen_value_spec(&mut prev, prop);
+        let sib = match &pv {
+            ValueSpec::Versions { items, .. } if !items.is_empty() => {
+                gen::sibling_version(&mut vr, &items[items.len() - 1]).map(ValueSpec::version)
+            }
+            ValueSpec::Ranges { items, .. } if !items.is_empty() => {
+                gen::sibling_range(&mut vr, &items[items.len() - 1]).map(ValueSpec::range)
+            }
+            _ => None,
+        };
+        if let Some(s) = sib {
+            value = s;
+        }
+    }
     let mut kr = rng.fork(7);
     let knobs = draw_knobs(&mut kr);
     let cfg = if fault_free_only || rng.below(8) == 0 {
